@@ -1,2 +1,112 @@
-import SimProc.Model.Env
-def main : IO Unit := IO.println "spdriver"
+/-
+Line-protocol driver for the executable world model (`spdriver`).
+Reads scenarios from stdin, prints the canonical observation stream to stdout.
+-/
+import SimProc.Model.World
+open SimProc
+
+def SimProc.Err.str : Err → String
+  | .value => "ValueError" | .key => "KeyError" | .attribute => "AttributeError"
+  | .runtime => "RuntimeError" | .assertion => "AssertionError" | .index => "IndexError"
+  | .type_ => "TypeError" | .notImplemented => "NotImplementedError" | .other => "Exception"
+
+def SimProc.Res.str : Res → String
+  | .ok => "ok" | .err e => "err " ++ e.str | .bool true => "ret 1" | .bool false => "ret 0"
+  | .none_ => "ret none" | .some_ => "ret some"
+
+def optInt : Option Int → String
+  | none => "-" | some v => toString v
+
+def evStr (e : Event) : String :=
+  s!"{e.time}:{e.prio}:{e.asset}:{e.act}:{e.weight}:{optInt e.pausedAt}:{if e.cancelled then 1 else 0}"
+
+def joinC (l : List String) : String := if l.isEmpty then "-" else ",".intercalate l
+
+/-- State dump (everything the correspondence may compare). -/
+def dump (w : World) : List String :=
+  [ s!"now {w.env.now} {if w.env.terminated then 1 else 0}",
+    "q " ++ joinC (w.env.events.map evStr),
+    "z " ++ joinC (w.env.paused.map evStr) ]
+
+def parseInt (s : String) : Int := s.toInt?.getD 0
+def parseNat (s : String) : Nat := s.toNat?.getD 0
+
+def parseOp : List String → Option Op
+  | ["sched", t, a, k, p] => some (.sched (parseInt t) (parseInt a) (parseNat k) (parseInt p))
+  | ["schedrel", t, a, k, p] => some (.schedRel (parseInt t) (parseInt a) (parseNat k) (parseInt p))
+  | ["pause", a] => some (.pause (parseInt a))
+  | ["unpause", a] => some (.unpause (parseInt a))
+  | ["cancel", a] => some (.cancel (parseInt a))
+  | _ => none
+
+def listSetApp {α} (l : List (List α)) (k : Nat) (x : α) : List (List α) :=
+  let l := if l.length ≤ k then l ++ List.replicate (k + 1 - l.length) [] else l
+  l.set k (l.getD k [] ++ [x])
+
+def flushResults (w : World) : IO World := do
+  for r in w.results do IO.println ("res " ++ r.str)
+  return { w with results := [] }
+
+def afterEvent (e : Event) (w : World) : IO World := do
+  IO.println s!"ev {e.time} {e.prio} {e.asset} {e.act} {if e.live then "ran" else "cancelled"}"
+  let w ← flushResults w
+  for l in dump w do IO.println l
+  match w.error with
+  | some m => IO.println ("model-error " ++ m)
+  | none => pure ()
+  return w
+
+partial def runIO (w : World) (n : Nat) : IO World := do
+  if n ≥ 20000 then
+    IO.println "abort StepLimit"; return w
+  if w.error.isSome then return w
+  if w.env.running then
+    match w.step with
+    | none => return w
+    | some (e, w') =>
+      let w' ← afterEvent e w'
+      runIO w' (n + 1)
+  else return w
+
+def handle (w : World) (toks : List String) : IO World := do
+  match toks with
+  | ["scenario", n] => IO.println s!"scenario {n}"; return {}
+  | ["seed", s, r] => return { w with seed := parseNat s, wmod := parseNat r }
+  | "script" :: k :: rest =>
+    match parseOp rest with
+    | some op => return { w with scripts := listSetApp w.scripts (parseNat k) op }
+    | none => IO.println "model-error bad-op"; return w
+  | "ext" :: rest =>
+    match parseOp rest with
+    | some op =>
+      let w := w.applyOps [op]
+      let w ← flushResults w
+      for l in dump w do IO.println l
+      return w
+    | none => IO.println "model-error bad-op"; return w
+  | ["step"] =>
+    match w.step with
+    | none => IO.println "res err IndexError"; return w
+    | some (e, w') => afterEvent e w'
+  | ["run", d] =>
+    IO.println s!"runbegin {w.env.now} {parseInt d}"
+    let (w, r) := w.runBegin (parseInt d)
+    if r != .ok then IO.println ("res " ++ r.str)
+    let w ← runIO w 0
+    IO.println s!"ran {w.env.now}"
+    return w
+  | ["end"] => IO.println "end"; return w
+  | [] => return w
+  | [""] => return w
+  | "idoff" :: _ => return w
+  | _ => IO.println ("model-error bad-line " ++ " ".intercalate toks); return w
+
+partial def loop (h : IO.FS.Stream) (w : World) : IO Unit := do
+  let line ← h.getLine
+  if line.isEmpty then return ()
+  let toks := (line.trimAscii.toString.splitOn " ").filter (· ≠ "")
+  let w ← handle w toks
+  loop h w
+
+def main : IO Unit := do
+  loop (← IO.getStdin) {}
